@@ -117,13 +117,7 @@ EveryKthWeekday  == (st = "done" /\ t0 # t1 /\ IsBBump(bump)) =>
                         /\ Len(out) = (Len(W) + k - 1) \div k
                         /\ \A i \in 1..Len(out) : out[i][1] = W[1 + (i - 1) * k]
 
-\* the same list as a function of the arguments alone (recursive: small spans only)
-RECURSIVE Walk(_, _, _, _)
-Walk(x, a, z, b) == IF Within(x, a, z) THEN <<x>> \o Walk(Apply(x, b), a, z, b) ELSE <<>>
-Outcome(a, z, b) == IF a = z THEN <<"ok", <<a>>>>
-                    ELSE IF Dir(a, b) # Toward(a, z) THEN <<"exc", "ValueError">>
-                    ELSE <<"ok", Walk(Start(a, b), a, z, b)>>
-AcceptSeq(a, z, b) == IF SinglePointWeekend(a, z, b) THEN <<Outcome(a, z, b), <<"ok", <<>>>>>> ELSE <<Outcome(a, z, b)>>
+\* the same list as a function of the arguments alone (Drange!Walk / Outcome / AcceptSeq; recursive: small spans only)
 MachineIsFunction == Halted => Outcome(t0, t1, bump) = (IF st = "rejected" THEN <<"exc", "ValueError">> ELSE <<"ok", out>>)
 
 \* the same for every spelling of a whole-day bump and ANY endpoints (times of day of their own, less than a day /
